@@ -11,6 +11,7 @@ import (
 	"time"
 
 	"github.com/maypok86/otter/v2"
+	"github.com/maypok86/otter/v2/internal/verifhook"
 	"github.com/maypok86/otter/v2/verifharness/vh"
 	"pgregory.net/rapid"
 )
@@ -37,6 +38,9 @@ type s2Case struct {
 	Keys     int        `json:"keys"`
 	Actions  []s2Action `json:"actions"`
 	WriteMix bool       `json:"-"`
+	// InstallGate: every finished load is parked at the load.beforeInstall hook point (after its loader returned, before the
+	// installing table computation) until the step has been observed once; then it is let through within the same step.
+	InstallGate bool `json:"install_gate,omitempty"`
 }
 
 var s2T *testing.T
@@ -190,6 +194,7 @@ func genS2Case(t *rapid.T, withWrites bool) s2Case {
 		Tracked: rapid.Bool().Draw(t, "tracked"),
 		Keys:    rapid.IntRange(1, 4).Draw(t, "keys"),
 	}
+	c.InstallGate = rapid.Bool().Draw(t, "installgate")
 	// computecancel: a Compute whose function cancels. It is not a write, an invalidation or an eviction, so it must
 	// neither interrupt single-flight nor change what waiters receive.
 	ops := []string{"get", "get", "get", "bulkget", "bulkget", "release", "release", "release", "release", "computecancel"}
@@ -263,6 +268,89 @@ func runS2(c s2Case, prop string, perStep func(w *s2World, cache *otter.Cache[in
 			quit := make(chan struct{})
 			defer close(quit)
 			ld := s2Loader{w}
+			// install gate: loads park between their loader's return and the installing computation
+			var gateMu sync.Mutex
+			var parkedInstalls []chan struct{}
+			if c.InstallGate {
+				verifhook.Set(func(id string) {
+					if id != "load.beforeInstall" {
+						return
+					}
+					ch := make(chan struct{})
+					gateMu.Lock()
+					parkedInstalls = append(parkedInstalls, ch)
+					gateMu.Unlock()
+					<-ch
+				})
+				defer verifhook.Set(nil)
+			}
+			checked := map[int]bool{}
+			// observe: "success => cached and returned" also holds for a caller that joined somebody else's load: once its Get has
+			// returned (v, nil), a lookup finds v (unless the key was written / invalidated since the call began, or another
+			// invocation for the key finished meanwhile). Judged for C10 only.
+			observe := func() error {
+				if prop != "C10" {
+					return nil
+				}
+				w.mu.Lock()
+				defer w.mu.Unlock()
+				for _, cl := range w.calls {
+					if cl.kind != "get" || !cl.done || checked[cl.id] {
+						continue
+					}
+					checked[cl.id] = true
+					if cl.err != nil || cl.panicked != nil {
+						continue
+					}
+					k := cl.keys[0]
+					skip := false
+					for _, st := range w.writes[k] {
+						if st > cl.start {
+							skip = true
+						}
+					}
+					suppliers := 0
+					for _, inv := range w.invs {
+						covers := false
+						for _, ik := range inv.keys {
+							covers = covers || ik == k
+						}
+						if v, ok := inv.vals[k]; ok && v == cl.val || (inv.kind == "load" || inv.kind == "reload") && covers && inv.val == cl.val && inv.err == nil && inv.end != 0 {
+							suppliers++
+							continue
+						}
+						if (covers || inv.vals[k] != 0) && inv.end > cl.start {
+							skip = true // another invocation for the key finished during or after the call
+						}
+					}
+					if skip || suppliers != 1 {
+						continue
+					}
+					if g, ok := cache.GetEntryQuietly(k); !ok || g.Value != cl.val {
+						return fmt.Errorf("Get(%d) (call %d) has returned (%d, nil) - the value an invocation loaded - but a lookup right afterwards gives (%d,%v): the value was handed out before it was cached (no write, invalidation or other load of the key since the call began)", k, cl.id, cl.val, g.Value, ok)
+					}
+				}
+				return nil
+			}
+			settle := func() error {
+				for round := 0; round < 100; round++ {
+					synctest.Wait()
+					if err := observe(); err != nil {
+						return err
+					}
+					gateMu.Lock()
+					parked := parkedInstalls
+					parkedInstalls = nil
+					gateMu.Unlock()
+					if len(parked) == 0 {
+						return nil
+					}
+					for _, ch := range parked {
+						close(ch)
+					}
+				}
+				return nil
+			}
 			start := func(kind string, keys []int, f func(cl *s2Call)) {
 				w.mu.Lock()
 				cl := &s2Call{id: len(w.calls), kind: kind, keys: append([]int(nil), keys...), start: w.tick()}
@@ -383,7 +471,9 @@ func runS2(c s2Case, prop string, perStep func(w *s2World, cache *otter.Cache[in
 						cache.ComputeIfPresent(a.K, func(old int) (int, otter.ComputeOp) { return 0, otter.CancelOp })
 					}
 				}
-				synctest.Wait()
+				if err := settle(); err != nil && verr == nil {
+					verr = err
+				}
 				if perStep != nil && verr == nil {
 					verr = perStep(w, cache, a)
 				}
@@ -408,12 +498,18 @@ func runS2(c s2Case, prop string, perStep func(w *s2World, cache *otter.Cache[in
 						out = "full"
 					}
 					inv.gate <- s2Action{Op: "released", Out: out}
-					synctest.Wait()
+					if err := settle(); err != nil && verr == nil {
+						verr = err
+					}
 				}
 			}
-			synctest.Wait()
+			if err := settle(); err != nil && verr == nil {
+				verr = err
+			}
 			execWG.Wait()
-			synctest.Wait()
+			if err := settle(); err != nil && verr == nil {
+				verr = err
+			}
 			if verr == nil && final != nil {
 				verr = final(w, cache)
 			}
